@@ -133,11 +133,11 @@ func valueFor(k cfgKey, i int) (text string, norm string) {
 
 // Assignment sets one key from the environment and/or the file.
 type Assignment struct {
-	Key  int  `json:"key"` // index into cfgKeys()
-	Env  bool `json:"env"`
-	File bool `json:"file"`
-	EnvV int  `json:"envV"`
-	FileV int `json:"fileV"`
+	Key   int  `json:"key"` // index into cfgKeys()
+	Env   bool `json:"env"`
+	File  bool `json:"file"`
+	EnvV  int  `json:"envV"`
+	FileV int  `json:"fileV"`
 }
 
 // C20Plan is a set of assignments (at most one per key).
@@ -366,7 +366,10 @@ func TestC20Table(t *testing.T) {
 		{"postgres no db name", func(c *config.AppConfig) { c.Db.Engine = config.DBPostgreSQL; c.Db.Postgres.DbName = "" }, false},
 		{"postgres with empty sqlite path", func(c *config.AppConfig) { c.Db.Engine = config.DBPostgreSQL; c.Db.SQLite.FilePath = "" }, true},
 		{"prepared empty file path", func(c *config.AppConfig) { c.Db.PreparedDb = true; c.Db.PreparedDbFilePath = "" }, false},
-		{"prepared missing file", func(c *config.AppConfig) { c.Db.PreparedDb = true; c.Db.PreparedDbFilePath = filepath.Join(c20Dir, "nope.gz") }, false},
+		{"prepared missing file", func(c *config.AppConfig) {
+			c.Db.PreparedDb = true
+			c.Db.PreparedDbFilePath = filepath.Join(c20Dir, "nope.gz")
+		}, false},
 		{"prepared existing file", func(c *config.AppConfig) { c.Db.PreparedDb = true; c.Db.PreparedDbFilePath = existing }, true},
 		{"prepared off, missing file", func(c *config.AppConfig) { c.Db.PreparedDbFilePath = filepath.Join(c20Dir, "nope.gz") }, true},
 		{"nil db section", func(c *config.AppConfig) { c.Db = nil }, false},
